@@ -29,6 +29,14 @@ type EvalCtx struct {
 	pkg    *packages.Package
 	fnPos  token.Pos
 	depth  int
+	hst    *State // state that havocTarget writes to (default: st)
+}
+
+func (c *EvalCtx) hs() *State {
+	if c.hst != nil {
+		return c.hst
+	}
+	return c.st
 }
 
 func (c *EvalCtx) with(st *State, env map[string]SV) *EvalCtx {
@@ -108,6 +116,34 @@ func (c *EvalCtx) goEval(expr string) (types.TypeAndValue, error) {
 		}
 	}
 	return tv, err
+}
+
+// importedVar resolves pkgName.name to a package-level variable of a package
+// imported (possibly under an alias) by some file of the current package.
+func (c *EvalCtx) importedVar(pkgName, name string) *types.Var {
+	if c.pkg == nil {
+		return nil
+	}
+	for _, f := range c.pkg.Syntax {
+		for _, is := range f.Imports {
+			path := strings.Trim(is.Path.Value, "\"")
+			ip := c.pkg.Imports[path]
+			if ip == nil || ip.Types == nil {
+				continue
+			}
+			local := ip.Types.Name()
+			if is.Name != nil {
+				local = is.Name.Name
+			}
+			if local != pkgName {
+				continue
+			}
+			if v, ok := ip.Types.Scope().Lookup(name).(*types.Var); ok {
+				return v
+			}
+		}
+	}
+	return nil
 }
 
 func (c *EvalCtx) resolveType(s string) (types.Type, error) {
@@ -543,6 +579,13 @@ func (c *EvalCtx) evalField(e *SExpr) (SV, error) {
 				if sv, ok := c.constValue(tv); ok {
 					return sv, nil
 				}
+				// package-level variable of an imported package: the same
+				// cell the executor reads through *ssa.Global
+				if obj := c.importedVar(e.Args[0].Name, e.Name); obj != nil {
+					key := "global!" + obj.Pkg().Path() + "." + e.Name
+					addr := ex.ts.Const(smtIdent(key), SInt)
+					return SV{V: ex.load(c.st, TV{addr}, obj.Type()), T: obj.Type()}, nil
+				}
 			}
 		}
 	}
@@ -790,46 +833,8 @@ func (c *EvalCtx) evalCall(e *SExpr) (SV, error) {
 		// no store and no call with side effects happened on this path. Lock and
 		// allocation bookkeeping is excluded.
 		var conds []*Term
-		keys := map[string]bool{}
-		for k := range c.st.Heap {
-			keys[k] = true
-		}
-		for k := range c.old.Heap {
-			keys[k] = true
-		}
-		for k := range keys {
-			if k == "G:held" || k == "G:rheld" {
-				continue
-			}
-			var cur, old *Term
-			if t, ok := c.st.Heap[k]; ok {
-				cur = t
-			}
-			if t, ok := c.old.Heap[k]; ok {
-				old = t
-			}
-			if cur == nil && old == nil {
-				continue
-			}
-			if cur == nil {
-				cur = ex.initHeap(k, old.Sort)
-			}
-			if old == nil {
-				old = ex.initHeap(k, cur.Sort)
-			}
-			if cur == old {
-				continue
-			}
-			if strings.HasPrefix(k, "G:") || cur.Sort.Args[0] != SInt {
-				conds = append(conds, ts.Eq(cur, old))
-				continue
-			}
-			// objects allocated by this call are not part of the old state:
-			// compare the contents of pre-existing objects only
-			r := ts.BoundVar("r", SInt)
-			conds = append(conds, ts.Forall([]*Term{r}, ts.Implies(
-				ts.Le(ex.uf("alloctime", SInt, r), ts.Int(0)),
-				ts.Eq(ts.Select(cur, r), ts.Select(old, r)))))
+		for _, t := range ex.heapDiff(c.st, c.old) {
+			conds = append(conds, t)
 		}
 		sortTerms(conds)
 		return SV{V: TV{ts.And(conds...)}, T: boolT}, nil
@@ -948,7 +953,7 @@ func (c *EvalCtx) havocTarget(e *SExpr) error {
 	switch e.Kind {
 	case "ident":
 		if _, ok := ex.prog.Contracts.GhostMaps[e.Name]; ok {
-			ex.havocKey(c.st, "G:"+e.Name)
+			ex.havocKey(c.hs(),"G:"+e.Name)
 			if e.Name == "held" || e.Name == "rheld" {
 				ex.heldHavocked = true
 			}
@@ -961,8 +966,8 @@ func (c *EvalCtx) havocTarget(e *SExpr) error {
 				if err != nil {
 					return err
 				}
-				arr := ex.heapGet(c.st, "G:"+g.Name, SArray(ghostSort(g.Key), ghostSort(g.Val)))
-				ex.heapSet(c.st, "G:"+g.Name, ts.Store(arr, k, ts.Fresh("g!"+g.Name, ghostSort(g.Val))))
+				arr := ex.heapGet(c.hs(), "G:"+g.Name, SArray(ghostSort(g.Key), ghostSort(g.Val)))
+				ex.heapSet(c.hs(), "G:"+g.Name, ts.Store(arr, k, ts.Fresh("g!"+g.Name, ghostSort(g.Val))))
 				seen := false
 				for _, t := range ex.ghostTouched[g.Name] {
 					if t == k {
@@ -999,13 +1004,13 @@ func (c *EvalCtx) havocTarget(e *SExpr) error {
 			}
 			es := ex.tm.SortOf(st.Elem())
 			key := ElemKey(es)
-			el := ex.heapGet(c.st, key, SArray(SInt, SArray(SInt, es)))
+			el := ex.heapGet(c.hs(), key, SArray(SInt, SArray(SInt, es)))
 			arr := ts.SelectField(ex.tm.slice, 0, sv.V.(TV).T)
-			ex.heapSet(c.st, key, ts.Store(el, arr, ts.Fresh("elems", SArray(SInt, es))))
+			ex.heapSet(c.hs(), key, ts.Store(el, arr, ts.Fresh("elems", SArray(SInt, es))))
 			return nil
 		case "key":
 			// key("F:pkg.T.f"): whole heap key
-			ex.havocKey(c.st, strings.Trim(e.Args[0].Val, "\""))
+			ex.havocKey(c.hs(),strings.Trim(e.Args[0].Val, "\""))
 			return nil
 		}
 	case "field":
@@ -1029,7 +1034,7 @@ func (c *EvalCtx) havocTarget(e *SExpr) error {
 									}
 								}
 								for k := range ws {
-									ex.havocKey(c.st, k)
+									ex.havocKey(c.hs(),k)
 								}
 								return nil
 							}
@@ -1054,7 +1059,7 @@ func (c *EvalCtx) havocTarget(e *SExpr) error {
 			return c.havocObject(p.V, stype)
 		}
 	}
-	ex.store(c.st, p.V, el, ex.fresh(c.st, "mod", el))
+	ex.store(c.hs(), p.V, el, ex.fresh(c.hs(), "mod", el))
 	return nil
 }
 
@@ -1070,7 +1075,7 @@ func (c *EvalCtx) havocObject(ptr Value, stype types.Type) error {
 			}
 			continue
 		}
-		ex.store(c.st, fa, ft, ex.fresh(c.st, "mod", ft))
+		ex.store(c.hs(), fa, ft, ex.fresh(c.hs(), "mod", ft))
 	}
 	return nil
 }
@@ -1140,4 +1145,54 @@ func sortTerms(ts []*Term) {
 			ts[j], ts[j-1] = ts[j-1], ts[j]
 		}
 	}
+}
+
+// heapDiff returns, per heap key whose term differs between cur and old, the
+// condition "the contents of every pre-existing object are equal". Lock
+// bookkeeping (held, rheld) is excluded.
+func (ex *Exec) heapDiff(curSt, oldSt *State) map[string]*Term {
+	ts := ex.ts
+	out := map[string]*Term{}
+	keys := map[string]bool{}
+	for k := range curSt.Heap {
+		keys[k] = true
+	}
+	for k := range oldSt.Heap {
+		keys[k] = true
+	}
+	for k := range keys {
+		if k == "G:held" || k == "G:rheld" {
+			continue
+		}
+		var cur, old *Term
+		if t, ok := curSt.Heap[k]; ok {
+			cur = t
+		}
+		if t, ok := oldSt.Heap[k]; ok {
+			old = t
+		}
+		if cur == nil && old == nil {
+			continue
+		}
+		if cur == nil {
+			cur = ex.initHeap(k, old.Sort)
+		}
+		if old == nil {
+			old = ex.initHeap(k, cur.Sort)
+		}
+		if cur == old {
+			continue
+		}
+		if strings.HasPrefix(k, "G:") || cur.Sort.Args[0] != SInt {
+			out[k] = ts.Eq(cur, old)
+			continue
+		}
+		// objects allocated by this call are not part of the old state:
+		// compare the contents of pre-existing objects only
+		r := ts.BoundVar("r", SInt)
+		out[k] = ts.Forall([]*Term{r}, ts.Implies(
+			ts.Le(ex.uf("alloctime", SInt, r), ts.Int(0)),
+			ts.Eq(ts.Select(cur, r), ts.Select(old, r))))
+	}
+	return out
 }
